@@ -21,6 +21,7 @@ UNITS["C05"] = [
     dict(test="TestC05_NearValid", quick=dict(checks=5000, shards=2), thorough=dict(checks=100000, shards=8)),
     dict(test="TestC05_Exhaustive", quick=dict(), thorough=dict()),
     dict(test="TestC05_DoublePlus", quick=dict(), thorough=dict()),
+    dict(test="TestC05_Long", quick=dict(), thorough=dict(timeout=3000)),
     dict(test="TestC05_Confusables", quick=dict(checks=3000, shards=2), thorough=dict(checks=60000, shards=8)),
     dict(fuzz="FuzzAPI", thorough=dict(fuzztime=15)),
 ]
